@@ -39,8 +39,10 @@ RULE = ("type-directed constructions through the public builders only: P(...), P
 ASSUMPTIONS = [
     "the theorems quantify over expressions satisfying the decidable invariant `built` (children/parents/ranges/(co)domains/"
     "subscripts sorted with each name once, products flat and in stable-sorted order without constant factors, Zero() only as the "
-    "whole expression); that every object the public builders and operators produce satisfies it is NOT a theorem (OPEN: "
-    "built_closed): it is decided by the model on every Python-built object of every run (correspondence stream `domain`)",
+    "whole expression). Closure of `built` under `*`, `/` and Sum[...] IS a theorem (built_closed_mul/div/sum, for any asymmetric "
+    "sort order; asymmetry is proved for the pinned _get_key order, for the total key of the expr family it is their key_total); "
+    "that the leaf builders P/P[..]/PP[..]/Q[..] produce built objects is NOT a theorem (OPEN: built_closed_builders): it is "
+    "decided by the model on every Python-built object of every run (correspondence stream `domain`)",
     "quantifier: variable names are those of the parser's name table (A..Z without P/Q, Pi, π, with optional digit or _digit); "
     "a name outside the table (e.g. TARGET_DOMAIN 'pi*', 'AA') cannot be parsed by design of parse_y0 and is outside the property",
     "quantifier: each distribution, each subscript list, each Sum range and each Q-(co)domain mentions a name at most once "
